@@ -7,6 +7,7 @@ through the io proxy in the library modules; the XorEncodedFile.read contract st
 from __future__ import annotations
 
 import io
+import struct
 import os
 import tempfile
 
@@ -235,7 +236,7 @@ def check_case(case, ctx):
                  "expected": None if exp is None else [(v, p, k) for v, p, k in exp[1][:3]]},
            classes=(f"layout:{meta.get('layout')}", f"bs:{bs}", "expect:none" if exp is None else f"expect:{exp[0]}",
                     f"keys:{'default' if keys is None else len(keys)}", f"allkeys:{allk}", f"decoys:{meta.get('decoys', 0)}",
-                    f"place:{meta.get('place')}", f"fill:{meta.get('fill')}", f"guardlike-seam:{bool(meta.get('guardlike'))}"))
+                    f"place:{meta.get('place')}", f"fill:{meta.get('fill')}", f"guardlike-seam:{meta.get('guardlike')}"))
 
 
 # ---- generator ------------------------------------------------------------------------------------------------
@@ -304,6 +305,20 @@ def gen_case(rng, tier, force_key=None):
                 g = rng.choice([b"\x00\x05\x00\x01\x00\x02", b"\x00\x06\x00\x01\x00\x02", b"\x00\x07\x00\x01\x00\x02", b"\x00\x08\x00\x02\x00\x04"])
                 body[off + 6138 : off + 6150] = a + bytes(x ^ y ^ 0x8A for x, y in zip(a[::-1], g))
                 guardlike = True
+            elif rng.random() < 0.015 and how != "zero" and off >= 8:
+                # a complete, checksum-consistent guard configuration for a 6144-byte "area" that starts a few bytes BEFORE the
+                # block: read as Guardrails (key = the block's padding byte ^ 0x2e, twice) the area does not start with a
+                # configuration header, so it is no protected configuration - the block is still a plain block
+                d = rng.randrange(1, min(off, 200) + 1)
+                a0 = off - d
+                if len(body) < a0 + 6144 + 24:
+                    body += P.filler(rng, a0 + 6144 + 24 - len(body), "zero")
+                area = bytes(body[a0 : a0 + 6144])
+                kk = bytes([k ^ 0x2E]) * 2
+                unguarded = P.rxk(P.rx1(area, 0x2E), kk)
+                g = tlv.S(5, 1, b"\x12\x34") + tlv.S(9, 2, struct.pack(">I", P.payload_checksum(unguarded) + 1)) + b"\0\0"
+                body[a0 + 6144 : a0 + 6144 + len(g)] = bytes(x ^ y ^ 0x8A for x, y in zip(g, area[::-1]))
+                guardlike = "crafted"
     raw = bytes(body)
     if raw[:1100].count(b"\xff\xff\xff") > 4:
         # every ff ff ff in the first 1 KB is an end-of-stub candidate that costs 1024 header probes (minutes in
